@@ -20,7 +20,7 @@ var (
 	poolAzp    = []string{"client-1", "web", "client-2"}
 	poolClaimK = []string{"[group]", "[groups]", "[realm][role]", "[scope]", "[a][b][c]", "[tenant]", "[org][unit]", "[roles]", "[x-y]", "[email]"}
 	// validator-accepted keys that reach the fallbacks / error path of extractNameInNestedBrackets
-	oddClaimK  = []string{"[a[b]]", ".x[a]", "[a]b[c]", "[a][b", "x[a][b]"}
+	oddClaimK  = []string{"[a[b]]", ".x[a]", "[a]b[c]", "[a][b", "x[a][b]", "[a][]", "[][a]"} // the last two: rejected since fix 6119378
 	poolClaimV = []string{"admin", "dev", "ops", "read", "write"}
 )
 
@@ -66,7 +66,9 @@ func (g *genCtx) phase3When() (string, func() string) {
 		g.note("claimk", k)
 		return "request.auth.claims" + k, func() string { b := wire.Pick(r, poolClaimV); g.note("claimv", b); return g.form(b, false) }
 	default:
-		k := wire.Pick(r, []string{"experimental.envoy.filters.http.a[key]", "experimental.envoy.filters.network.b[k2]"})
+		k := wire.Pick(r, []string{"experimental.envoy.filters.http.a[key]", "experimental.envoy.filters.network.b[k2]",
+			"experimental.envoy.filters.http.jwt_authn[sub]", "experimental.envoy.filters.network.mx[peer]", "experimental.envoy.filters.http.lua[x.y]",
+			"experimental.envoy.filters.network.b[key]"})
 		g.note("expk", k)
 		return k, func() string {
 			b := wire.Pick(r, poolClaimV)
@@ -154,8 +156,12 @@ func (g *genCtx) ipNear() string {
 			case 4:
 				n = new(big.Int).SetBytes(pfx.Addr().AsSlice())
 			case 5:
-				// the same number in the other family: must never match
+				// the same number in the other family, or the IPv4-mapped IPv6 form of an address inside an IPv4 block
+				// (::ffff:a.b.c.d): must never match
 				if width == 32 {
+					if r.Chance(1, 2) {
+						return "6:" + new(big.Int).Add(new(big.Int).Lsh(big.NewInt(0xffff), 32), base).String()
+					}
 					return "6:" + base.String()
 				}
 				return new(big.Int).And(base, big.NewInt(0xffffffff)).String()
